@@ -5,7 +5,8 @@
 //! objective, probability values and ranges, threshold / arg-max decision, support check) is evaluated
 //! by TLC (specs/Trace_Logistic.tla, specs/Trace_Glm.tla).
 //!
-//! case.inp (all kinds): x (n rows of p ints), q (extra query rows, ints), an/ad (alpha = an/ad), icpt
+//! case.inp (all kinds): x (n rows of p ints), q (extra query rows, ints), qv (optional: more query rows, judged by the
+//!   validity clauses only), an/ad (alpha = an/ad), icpt
 //!   bin  : y (class index 0/1 per row), lt ("bool"|"usize"|"string"), names (string form of class 0 / 1),
 //!          init ([] or p+icpt ints, value v/10), thrs (list of {"k":"default"} | {"k":"frac","a","b"} | {"k":"row","r"})
 //!   multi: y (class index), lt, names, init ([] or (p+icpt) rows of K ints, value v/10)
@@ -71,7 +72,7 @@ fn clean(s: String) -> String {
 
 struct Common {
     x: Array2<f64>,
-    xq: Array2<f64>, // x ++ q
+    xq: Array2<f64>, // x ++ q ++ qv
     alpha: f64,
     icpt: bool,
     p: usize,
@@ -84,6 +85,10 @@ fn common(inp: &Value) -> Common {
     let x = mat(&xr, p);
     let mut all = xr.clone();
     all.extend(qr.iter().cloned());
+    // "qv": further query rows (extreme magnitudes) that the specification judges by the validity clauses only
+    if let Some(v) = inp.get("qv") {
+        all.extend(imat(v).iter().cloned());
+    }
     let xq = mat(&all, p);
     Common { x, xq, alpha: geti(inp, "an") as f64 / geti(inp, "ad") as f64, icpt: getb(inp, "icpt"), p }
 }
